@@ -117,8 +117,9 @@ Definition step (st : mstate) : sres :=
           match slice s si e with
           | None => SDone OPanic
           | Some l2 =>
-            if list_eqb l1 l2 then SNext (mkSt e (S pi) c tb) 0
-            else SNext (trackback st) 0
+            (* consumeBudgetN(c.end - c.start): the comparison is charged *)
+            if list_eqb l1 l2 then SNext (mkSt e (S pi) c tb) (ce - cs)
+            else SNext (trackback st) (ce - cs)
           end
         end
       else SNext (trackback st) 0
